@@ -1,2 +1,165 @@
-(* placeholder until the proofs are in: keeps the check runnable while the model is validated *)
-From BWStore Require Import Store Lookup LookupSpec.
+(* C09 — lookup options: time window, filter functions and paging select as defined.
+   Model: the options-dependent half of BWStore.Lookup (checker.CheckGlobalTimeBounds, isImmutable/isTemporal/latest
+   filters, LatestAnchor, the CheckLimitAndUpdate counters); Spec: BWStore.LookupSpec.
+   [lookup] = working tree (after fixes F6, F19); [lookup_v] with v_inst = false = the filter functions before F19. *)
+From Coq Require Import List NArith ZArith Bool.
+Import ListNotations.
+From BWStore Require Import AMap Store StoreSpec StoreProofs Lookup LookupSpec PageProofs LookupProofs LookupMain.
+
+(* ---- window: closed interval, absent side unbounded, immutable always kept ---------------------------------------- *)
+Theorem C09_in_window_meaning : forall lo p,
+  in_window lo p = true <->
+  match panchor p with
+  | None => True
+  | Some t => (forall l, lo_lower lo = Some l -> (l <= ns t)%Z) /\ (forall u, lo_upper lo = Some u -> (ns t <= u)%Z)
+  end.
+Proof.
+  intros lo p. unfold in_window. destruct (panchor p) as [t|]; [|tauto].
+  rewrite andb_true_iff. destruct (lo_lower lo) as [l|]; destruct (lo_upper lo) as [u|];
+    rewrite ?Z.leb_le; split; intros H.
+  - destruct H. split; intros x E; inversion E; now subst.
+  - destruct H as [H1 H2]. split; auto.
+  - destruct H. split; intros x E; inversion E; now subst.
+  - destruct H as [H1 H2]. split; auto.
+  - destruct H. split; intros x E; inversion E; now subst.
+  - destruct H as [H1 H2]. split; auto.
+  - split; intros x E; inversion E.
+  - auto.
+Qed.
+Print Assumptions C09_in_window_meaning.
+
+(* the bounds step of the code is the window filter; with a predicate argument it additionally demands the same
+   kind and, for temporal predicates, the same instant *)
+Theorem C09_window : forall lo l,
+  apply_bounds current None lo l = filter (fun t => in_window lo (tpred t)) l.
+Proof. exact window_is_bounds. Qed.
+Print Assumptions C09_window.
+
+Theorem C09_window_with_predicate : forall q lo p,
+  check_bounds current (Some q) lo p =
+  (Bool.eqb (is_temporal q) (is_temporal p) &&
+   match panchor q, panchor p with Some a, Some b => Z.eqb (ns a) (ns b) | _, _ => true end) && in_window lo p.
+Proof. intros. apply (check_bounds_split (Some q)). Qed.
+Print Assumptions C09_window_with_predicate.
+
+(* ---- isImmutable / isTemporal: exactly the candidates whose predicate (or predicate-valued object) has that kind -- *)
+Theorem C09_kind_filters : forall qp temporal f X t,
+  (forall x, In x X -> query_pred_ok current qp x = true) ->
+  (In t (kind_filter current temporal qp f X) <->
+   In t X /\ exists p, fsel f t = Some p /\ is_temporal p = temporal).
+Proof.
+  intros qp temporal f X t Hq. rewrite (kind_filter_In qp temporal f X t Hq). unfold has_kind.
+  split; intros [Hin H]; split; auto.
+  - destruct (fsel f t) as [p|]; [|discriminate]. exists p. split; auto. now apply Bool.eqb_prop.
+  - destruct H as [p [E Ek]]. rewrite E, Ek. apply Bool.eqb_reflx.
+Qed.
+Print Assumptions C09_kind_filters.
+
+(* ---- latest: per predicate id the temporal candidates with the greatest anchor; every tie is kept; nothing else -- *)
+Theorem C09_latest : forall qp f X t,
+  NoDup X -> (forall x, In x X -> query_pred_ok current qp x = true) ->
+  (In t (latest_filter current qp f X) <->
+   In t X /\ exists p a, fsel f t = Some p /\ panchor p = Some a /\
+     forall t' p' a', In t' X -> fsel f t' = Some p' -> panchor p' = Some a' -> pid p' = pid p -> (ns a' <= ns a)%Z).
+Proof.
+  intros qp f X t Hnd Hq. rewrite (latest_filter_In qp f X t Hnd Hq). now rewrite is_latest_iff.
+Qed.
+Print Assumptions C09_latest.
+
+(* after the bucket and the bounds the "is it the query predicate" test inside the filter functions is redundant *)
+Theorem C09_filter_query_test_redundant : forall q t,
+  matches q t = true -> query_pred_ok current (q_flt_pred q) t = true.
+Proof. exact query_pred_redundant. Qed.
+Print Assumptions C09_filter_query_test_redundant.
+
+(* LatestAnchor is the latest filter on the predicate field; together with FilterOptions it is an error *)
+Theorem C09_latest_anchor : forall lo,
+  lo_latest lo = true ->
+  effective_filter lo = match lo_filter lo with Some _ => inr ELatestAndFilter | None => inl (Some (FLatest, FPredicate)) end.
+Proof. intros lo H. unfold effective_filter. now rewrite H. Qed.
+Print Assumptions C09_latest_anchor.
+
+(* ---- the whole pipeline, in the documented order (bounds, then filter, then limit), equals the specification for
+        every reachable graph, every lookup kind, every argument tuple and every options value (errors included) ---- *)
+Theorem C09_pipeline : forall U ops h g q lo,
+  (forall a b, In a U -> In b U -> trank a = trank b -> a = b) ->
+  (forall o t, In o ops -> In t (match o with OAdd _ ts => ts | _ => [] end) -> In t U) ->
+  graph_of (run ops) h = Some g ->
+  lookup q lo g =
+  match (let w := filter (fun t => in_window lo (tpred t)) (filter (matches q) (listing g)) in
+         match effective_filter lo with
+         | inr e => inr e
+         | inl None => inl w
+         | inl (Some fo) => spec_filter fo w
+         end) with
+  | inr e => LErr e
+  | inl l => LOk (map (q_proj q) (spec_page lo l))
+  end.
+Proof. intros U ops h g q lo Hf Hw Hg. exact (lookup_eq_spec_reachable U ops h g q lo Hf Hw Hg). Qed.
+Print Assumptions C09_pipeline.
+
+(* ---- paging ------------------------------------------------------------------------------------------------------- *)
+(* the counters of the checker implement the declarative page for ALL integer values of MaxElements and Offset *)
+Theorem C09_page_characterised : forall (A : Type) lo (l : list A),
+  page lo l =
+  if (lo_max lo >? 0)%Z then firstn (Z.to_nat (lo_max lo)) (skipn (Z.to_nat (lo_max lo * lo_offset lo)) l)
+  else skipn (Z.to_nat (lo_max lo * lo_offset lo)) l.
+Proof. exact page_is_spec_page. Qed.
+Print Assumptions C09_page_characterised.
+
+(* page size n > 0, offset k: the k-th block of n elements of the unpaged result *)
+Theorem C09_page_block : forall q lo g l (n : Z) (k : nat), (0 < n)%Z ->
+  lookup q (unpaged lo) g = LOk l ->
+  lookup q (with_page lo n (Z.of_nat k)) g = LOk (firstn (Z.to_nat n) (skipn (Z.to_nat n * k) l)).
+Proof. exact page_of_unpaged. Qed.
+Print Assumptions C09_page_block.
+
+(* consecutive pages are disjoint segments and their concatenation is the unpaged result, for every n > 0 and every
+   number of pages K that covers the result *)
+Theorem C09_pages_partition : forall q lo g l (n : Z) (K : nat), (0 < n)%Z ->
+  lookup q (unpaged lo) g = LOk l -> (length l <= Z.to_nat n * K)%nat ->
+  concat (map (fun k => results (lookup q (with_page lo n (Z.of_nat k)) g)) (seq 0 K)) = l.
+Proof. exact pages_partition. Qed.
+Print Assumptions C09_pages_partition.
+
+(* paging never changes whether the lookup fails *)
+Theorem C09_paged_error_iff : forall q lo g n k e,
+  lookup q (with_page lo n k) g = LErr e <-> lookup q (unpaged lo) g = LErr e.
+Proof. exact paged_error_iff. Qed.
+Print Assumptions C09_paged_error_iff.
+
+(* ---- before fix F19 (commit e13c36f): the filter functions compared Predicate.String() --------------------------- *)
+Definition z_stored := {| tsub := 0; tpred := {| pid := 0; panchor := Some {| ns := 5; off := 10800 |} |}; tobj := ONode 2; trank := 0 |}.
+Definition z_ops := [ONew 0; OAdd 0 [z_stored]].
+Definition z_query := QTrP {| pid := 0; panchor := Some {| ns := 5; off := 0 |} |}.   (* same instant, written in UTC *)
+Definition z_lo := {| lo_max := 0; lo_lower := None; lo_upper := None; lo_latest := false;
+                      lo_filter := Some (FIsTemporal, FPredicate); lo_offset := 0 |}.
+
+Theorem C09_unfixed_zone_refuted : exists ops h g q lo,
+  graph_of (run ops) h = Some g /\
+  lookup_v {| v_kind := true; v_inst := false |} q default_lo g = LOk [RsTriple z_stored] /\
+  lookup_v {| v_kind := true; v_inst := false |} q lo g = LOk [] /\
+  spec_lookup q lo g = LOk [RsTriple z_stored].
+Proof.
+  exists z_ops, 0%N. eexists. exists z_query, z_lo.
+  split; [vm_compute; reflexivity|]. vm_compute. auto.
+Qed.
+Print Assumptions C09_unfixed_zone_refuted.
+
+(* ---- non-vacuity: window boundary, latest with a tie, LatestAnchor, pages ------------------------------------------ *)
+Definition e1 := {| tsub := 0; tpred := {| pid := 0; panchor := Some {| ns := 5; off := 0 |} |}; tobj := ONode 1; trank := 0 |}.
+Definition e2 := {| tsub := 0; tpred := {| pid := 0; panchor := Some {| ns := 9; off := 0 |} |}; tobj := ONode 1; trank := 1 |}.
+Definition e3 := {| tsub := 0; tpred := {| pid := 0; panchor := Some {| ns := 9; off := 3600 |} |}; tobj := ONode 2; trank := 2 |}.
+Definition e4 := {| tsub := 0; tpred := {| pid := 1; panchor := None |}; tobj := ONode 1; trank := 3 |}.
+Definition e_ops := [ONew 0; OAdd 0 [e3; e1; e4; e2]].
+Definition mk (m : Z) (l u : option Z) (la : bool) (f : option (fop * ffield)) (o : Z) := Build_lopts m l u la f o.
+Example C09_nonvacuous : forall g, graph_of (run e_ops) 0 = Some g ->
+  lookup QAll (mk 0 (Some 5%Z) (Some 8%Z) false None 0) g = LOk [RsTriple e1; RsTriple e4] /\
+  lookup QAll (mk 0 (Some 9%Z) (Some 5%Z) false None 0) g = LOk [RsTriple e4] /\
+  lookup QAll (mk 0 None None false (Some (FLatest, FPredicate)) 0) g = LOk [RsTriple e2; RsTriple e3] /\
+  lookup QAll (mk 0 None (Some 8%Z) true None 0) g = LOk [RsTriple e1] /\
+  lookup QAll (mk 0 None None true (Some (FLatest, FPredicate)) 0) g = LErr ELatestAndFilter /\
+  lookup QAll (mk 0 None None false (Some (FLatest, FSubject)) 0) g = LErr EBadField /\
+  lookup QAll (mk 3 None None false None 1) g = LOk [RsTriple e4] /\
+  lookup QAll (mk (-1) None None false None (-1)) g = LOk [RsTriple e2; RsTriple e3; RsTriple e4].
+Proof. intros g Hg. vm_compute in Hg. inversion Hg. subst g. vm_compute. repeat split. Qed.
